@@ -410,14 +410,16 @@ def compare_block_processor(ctx, rep, stats):
             n, bl = ctx.rng.choice([1, 2, 2, 3, 3, 4, 8]), ctx.rng.choice([3, 3, 4, 5, 8, 16])
             lines.append("bp %d %d %d %s" % (n, bl, ctx.rng.randrange(1 << 30), w))
             meta.append((w, fail))
-    ref_lines = ["bp 1 3 0 %s" % w for w, _ in wl]
+    # reference: serial pool; for failing workloads additionally with the failure ignored (`bpn`)
+    ref_lines = ["bp 1 3 0 %s" % w for w, _ in wl] + ["bpn 1 3 0 %s" % w for w, _ in wl]
     t0 = time.time()
     impl, problems = run_parallel(ctx, [str(h)], lines, 600)
     ref, rproblems = run_parallel(ctx, [str(hs)], ref_lines, 600, pin=False)
     for pb in (problems + rproblems)[:2]:
         ctx.violation("crash-bp:" + pb["script"], "block processor on the controlled pool aborted / hung (rc=%s): %s :: %s" % (
             pb["rc"], pb["script"], pb["stderr"][-300:]), {"script": pb["script"], "stderr": pb["stderr"]})
-    refmap = {w: dict(kv.split("=") for kv in r.split()) for (w, _), r in zip(wl, ref) if r.startswith("rc=")}
+    refmap = {w: dict(kv.split("=") for kv in r.split()) for (w, _), r in zip(wl, ref[:len(wl)]) if r.startswith("rc=")}
+    ignmap = {w: dict(kv.split("=") for kv in r.split()) for (w, _), r in zip(wl, ref[len(wl):]) if r.startswith("rc=")}
     bad = d1 = nfail = swallowed = 0
     for l, (w, fail), a in zip(lines, meta, impl):
         if not a.startswith("rc="):
@@ -437,14 +439,16 @@ def compare_block_processor(ctx, rep, stats):
         elif fail:
             # Both pools hand a failing item back non-NULL and dequeue_block only asks get_status on NULL, so a failure
             # after which nothing is submitted any more is not noticed by the block processor (rc=0, block stored
-            # uncompressed) — with the serial pool always, with the threaded pool depending on the schedule.  That is
-            # C13's concern (docs/design/C09.md); here: the compressor's error or, if unnoticed, exactly the serial
-            # pool's output.
+            # uncompressed).  Whether a later submit still sees the status depends on when the worker ran, i.e. on the
+            # schedule (and differs from the serial pool, which runs the callback at dequeue time).  That is C13's
+            # concern (docs/design/C09.md).  Here: either the compressor's error, or exactly the output one gets when
+            # the failing block is treated as incompressible.
             if r["rc"] == "0":
                 swallowed += 1
-                if want["rc"] != "0" or (r["sz"], r["out"], r["ino"]) != (want["sz"], want["out"], want["ino"]):
-                    why = "worker failure neither reported nor handled like the serial pool does (threaded %s / serial rc=%s out=%s)" % (
-                        a, want["rc"], want["out"])
+                ign = ignmap.get(w)
+                if ign is not None and (r["sz"], r["out"], r["ino"]) != (ign["sz"], ign["out"], ign["ino"]):
+                    why = "worker failure unnoticed AND output differs from the failure-ignored reference (threaded %s / reference out=%s ino=%s)" % (
+                        a, ign["out"], ign["ino"])
             elif r["rc"] != r["cerr"]:
                 why = "a failing compressor is reported as rc=%s instead of SQFS_ERROR_COMPRESSOR=%s" % (r["rc"], r["cerr"])
         elif (r["rc"], r["sz"], r["out"], r["ino"]) != (want["rc"], want["sz"], want["out"], want["ino"]):
@@ -455,7 +459,7 @@ def compare_block_processor(ctx, rep, stats):
                 ctx.violation("bp:" + l, "block processor on the controlled pool: %s; workload/schedule: %s" % (why, l),
                               {"bp_line": l, "impl": a, "serial": want})
     stats["bp"] = {"workloads": len(wl), "schedules": len(lines), "with_failing_block": nfail, "d1_deadlocks_pinned_code": d1,
-                   "failure_unnoticed_by_block_processor_like_serial_pool": swallowed,
+                   "failure_unnoticed_by_block_processor": swallowed,
                    "violations": bad, "wall_s": round(time.time() - t0, 1)}
     stats["disagreements"] += bad
 
